@@ -128,7 +128,7 @@ def signature_of(ops, r):
     op = ops[at] if at < len(ops) else ""
     d = r.get("detail", "")
     had_par = any(o.startswith("par ") for o in ops[: at + 1])
-    if op.startswith("par ") and "new-shm" in op and "fail 607/22" in d and "fstat=0" in d:
+    if op.startswith("par ") and "new-shm" in op and (("fail 607/22" in d and "fstat=0" in d) or re.search(r"shm_open\(m\d\)/2/432=ENOENT", d)):
         return "first-open-race-window-a"
     if had_par and re.match(r"\d+ lock \d+", op) and "would-block" in d:
         return "first-open-race-window-b"
